@@ -21,10 +21,10 @@ func shortShapes(entry string, K0, K1, K2 int, vers string, fuel int64, cover ..
 		add("S2", tmpl(tC(p), tH('a', 0, K2)))
 	}
 	for _, p := range phpPrefixes {
-		add("S2", tmpl(tC(p), tH('a', 0, K1)))
+		add("S2", tmpl(tC(p), tH('a', 0, prefixK(K1))))
 	}
 	for _, p := range rawPrefixes {
-		add("S2", tmpl(tC(p), tH('a', 0, K1)))
+		add("S2", tmpl(tC(p), tH('a', 0, prefixK(K1))))
 	}
 	// offsets inside strings: "$a[" sign, K2+1 arbitrary bytes, then the closing bracket and
 	// quote (the string_var_index state skips bytes it has no rule for)
@@ -36,6 +36,15 @@ func shortShapes(entry string, K0, K1, K2 int, vers string, fuel int64, cover ..
 		add("S2", tmpl(tC(ps[0]), tH('a', 0, k), tC(ps[1])))
 	}
 	return out
+}
+
+// prefixK: the PHP-mode and HTML-mode prefixes multiply the ~30 behaviours per byte of the php
+// state by their number (19): they stay at two free bytes in the thorough tier.
+func prefixK(K1 int) int {
+	if K1 > 2 {
+		return 2
+	}
+	return K1
 }
 
 var offsetShapes = [][2]string{
@@ -72,7 +81,7 @@ func shortBounds(K0, K1, K2 int, vers string) []string {
 	return []string{
 		bound("S0 raw input: every byte string of length 0..%d", K0),
 		bound("S1 \"<?php \" / \"<?\" / \"<?=\" / \"<?php\" followed by every byte string of length 0..%d", K1),
-		bound("S2 %d lexical-mode prefixes followed by every byte string of length 0..%d; %d PHP-mode (numbers, variables, names, brackets, close tag) and %d HTML-mode (shebang line, text before the open tag, close tag) prefixes followed by every byte string of length 0..%d; %d string-offset shapes (\"$a[ / \"$a[- / heredoc $a[-, every byte string of length 0..%d (the first shape) / 0..%d, then ] and the closing quote or label)", len(modePrefixes), K2, len(phpPrefixes), len(rawPrefixes), K1, len(offsetShapes), K2+1, K2),
+		bound("S2 %d lexical-mode prefixes followed by every byte string of length 0..%d; %d PHP-mode (numbers, variables, names, brackets, close tag) and %d HTML-mode (shebang line, text before the open tag, close tag) prefixes followed by every byte string of length 0..%d (at most 2); %d string-offset shapes (\"$a[ / \"$a[- / heredoc $a[-, every byte string of length 0..%d (the first shape) / 0..%d, then ] and the closing quote or label)", len(modePrefixes), K2, len(phpPrefixes), len(rawPrefixes), K1, len(offsetShapes), K2+1, K2),
 		"versions " + vers + " (one representative per behaviour class; class equivalence is C09's claim)",
 	}
 }
